@@ -175,6 +175,21 @@ func authCorpus() []conv {
 
 // waitDataEnds waits (bounded, inconclusive on expiry) until every begun Data/LMTPData call
 // has ended. Delivery goroutines are not joined by Shutdown, so the log is polled.
+// waitDataEndsNow reports, without waiting, whether every Data call that began has ended.
+func waitDataEndsNow(l *rec.Log) bool {
+	b, e := 0, 0
+	for _, ev := range l.Events() {
+		if ev.Kind == "Data" || ev.Kind == "LMTPData" {
+			if ev.Ph == "b" {
+				b++
+			} else {
+				e++
+			}
+		}
+	}
+	return b == e
+}
+
 func waitDataEnds(l *rec.Log) bool {
 	deadline := time.Now().Add(wire.Watchdog)
 	for {
